@@ -165,7 +165,8 @@ class C05(B.C04):
     verdict_fn = "verdict05"
     theorems = ["C05_transform_total", "C05_finite_numbers_never_rejected",
                 "C05_unseen_category_goes_to_default", "C05_sentinel_necessary",
-                "C03_transform_monotone", "C03_transform_right_closed_intervals"]
+                "C05_checker_premises_sound", "C03_transform_monotone",
+                "C03_transform_right_closed_intervals"]
     rule = ("one case = a fitted object (same generator as C04: every Discretizer class and both "
             "carvers, output_dtype x dropna, JSON rebuilds) or a hand-made BaseDiscretizer state "
             "(incl. orders without the +inf sentinel); every fitted feature is probed by 5-7 frames "
